@@ -114,11 +114,17 @@ def problems(
     # --- perturbation terms
     cplx = draw(st.booleans()) and not int_dtype
     den = 1 if int_dtype else draw(st.sampled_from([1, 2, 2, 4]))
+    deep3 = False
     if max_K is None:
         max_K = {1: 4, 2: 3, 3: 3}[n_params] if tier == "quick" else {1: 5, 2: 4, 3: 3}[n_params]
+        # three parameters at total order 4 (the first order with three non-zero entries and a repeated one, (2,1,1))
+        # are affordable for small matrices only
+        deep3 = n_params == 3 and N <= 4 and rep != "sympy"
     if rep == "sympy":
         max_K = min(max_K, 3)
     K = draw(st.integers(min(min_K, max_K), max_K))
+    if deep3 and draw(st.booleans()):
+        K = 4
     orders = [tuple(int(i == k) for i in range(n_params)) for k in range(n_params)]
     if draw(st.booleans()):
         extra = [o for o in itertools.product(range(4), repeat=n_params) if 2 <= sum(o) <= 3]
